@@ -509,6 +509,11 @@ impl<'tcx> Cx<'tcx> {
                     _ => {
                         let s = ty::print::with_no_trimmed_paths!(format!("{}", c.const_));
                         fields.push(("v", esc(&s)));
+                        if let Const::Unevaluated(uv, _) = c.const_ {
+                            if let Some(pi) = uv.promoted {
+                                fields.push(("promoted", esc(&format!("{}::promoted[{}]", self.dpath(uv.def), pi.as_u32()))));
+                            }
+                        }
                         // integer / bool / char scalars as exact values (named constants are evaluated)
                         let env = TypingEnv::post_analysis(self.tcx, body_def);
                         let evald = if t.is_integral() || t.is_bool() || t.is_char() || t.is_floating_point() {
@@ -657,9 +662,23 @@ impl<'tcx> Cx<'tcx> {
     }
 
     fn body(&self, ld: LocalDefId) -> String {
-        let tcx = self.tcx;
         let d = ld.to_def_id();
-        let body: &Body<'tcx> = tcx.optimized_mir(d);
+        let body: &Body<'tcx> = self.tcx.optimized_mir(d);
+        self.body_json(d, body, self.dpath(d))
+    }
+
+    /// the promoted constants of a body (`&(0.0..=1.0)`, `&[..]`, ...) as bodies of their own: path `<fn path>::promoted[i]`
+    fn promoted(&self, ld: LocalDefId) -> Vec<String> {
+        let d = ld.to_def_id();
+        let mut out = vec![];
+        for (i, pb) in self.tcx.promoted_mir(d).iter_enumerated() {
+            out.push(self.body_json(d, pb, format!("{}::promoted[{}]", self.dpath(d), i.as_u32())));
+        }
+        out
+    }
+
+    fn body_json(&self, d: DefId, body: &Body<'tcx>, path: String) -> String {
+        let tcx = self.tcx;
         let mut names: std::collections::HashMap<u32, String> = Default::default();
         let mut upvar_names: Vec<String> = vec![];
         for vdi in &body.var_debug_info {
@@ -798,7 +817,7 @@ impl<'tcx> Cx<'tcx> {
             blocks.push(obj(vec![("c", b(data.is_cleanup)), ("s", arr(stmts)), ("t", t)]));
         }
         obj(vec![
-            ("path", esc(&self.dpath(d))),
+            ("path", esc(&path)),
             ("arg_count", body.arg_count.to_string()),
             ("locals", arr(locals)),
             ("upvars", arr(upvar_names)),
@@ -822,6 +841,7 @@ impl rustc_driver::Callbacks for Dump {
         let cx = Cx { tcx };
         let mut fns = vec![];
         let mut bodies = vec![];
+        let mut promoted = vec![];
         for ld in tcx.hir_body_owners() {
             let kind = tcx.def_kind(ld.to_def_id());
             if !matches!(kind, DefKind::Fn | DefKind::AssocFn | DefKind::Closure) {
@@ -829,6 +849,7 @@ impl rustc_driver::Callbacks for Dump {
             }
             fns.push(cx.fn_item(ld));
             bodies.push(cx.body(ld));
+            promoted.extend(cx.promoted(ld));
         }
         let n = bodies.len();
         let mut feats: Vec<String> = tcx
@@ -848,6 +869,7 @@ impl rustc_driver::Callbacks for Dump {
             ("traits", cx.dump_traits()),
             ("fns", arr(fns)),
             ("bodies", arr(bodies)),
+            ("promoted", arr(promoted)),
         ]);
         std::fs::write(&out, doc).expect("factdump: cannot write output");
         Compilation::Continue
